@@ -948,3 +948,47 @@ twin('C11', 'abort-drain-helper', CONNPY, 'Connection.tpc_abort',
         self._invalidate_creating()''', '''        modified = self._modified
         self._cache.invalidate(self._modified)
         self._invalidate_creating()''')
+
+# ---------------------------------------------------------------- C16
+breaker('C16', 'ds-pack-base', 'C16.R1', DSPY, 'DemoStorage.pack',
+        '''        try:
+            self.changes.pack(t, referencesf, gc=False)''',
+        '''        try:
+            self.base.pack(t, referencesf, gc=False)
+            self.changes.pack(t, referencesf, gc=False)''')
+breaker('C16', 'ds-begin-on-base', 'C16.R1', DSPY, 'DemoStorage.tpc_begin',
+        '''            self.changes.tpc_begin(transaction, *a, **k)''',
+        '''            self.changes.tpc_begin(transaction, *a, **k)
+            self.base.tpc_begin(transaction, *a, **k)''')
+breaker('C16', 'ds-finish-not-delegated', 'C16.R2', DSPY,
+        'DemoStorage.tpc_finish',
+        'tid = self.changes.tpc_finish(transaction, func)',
+        'tid = self.changes.lastTransaction()')
+breaker('C16', 'ds-store-changes-only-lookup', 'C16.R3', DSPY,
+        'DemoStorage.store',
+        'old = load_current(self, oid)[1]',
+        'old = load_current(self.changes, oid)[1]')
+breaker('C16', 'ds-loadserial-base-first', 'C16.R5', DSPY,
+        'DemoStorage.loadSerial',
+        '''        try:
+            return self.changes.loadSerial(oid, serial)
+        except ZODB.POSException.POSKeyError:
+            return self.base.loadSerial(oid, serial)''',
+        '''        try:
+            return self.base.loadSerial(oid, serial)
+        except ZODB.POSException.POSKeyError:
+            return self.changes.loadSerial(oid, serial)''')
+breaker('C16', 'ds-copies-lasttransaction', 'C16.R6', DSPY,
+        'DemoStorage._copy_methods_from_changes',
+        "'sortKey', 'tpc_transaction',",
+        "'sortKey', 'tpc_transaction', 'lastTransaction',")
+twin('C16', 'ds-gettid-rename', DSPY, 'DemoStorage.getTid',
+     '''        try:
+            return self.changes.getTid(oid)
+        except ZODB.POSException.POSKeyError:
+            return self.base.getTid(oid)''',
+     '''        changes = self.changes
+        try:
+            return changes.getTid(oid)
+        except ZODB.POSException.POSKeyError:
+            return self.base.getTid(oid)''')
